@@ -10,12 +10,14 @@ inductive Op
   | remove (h : Nat)
   | removeStale (isOK : Tx → Bool) (feer : Feer)
   | verify (t : Tx) (feer : Feer)
+  | setResendThreshold (h : Nat)
 
 def applyOp (mp : Pool) : Op → Pool
   | .add t feer => (add mp t feer).1
   | .remove h => remove mp h
   | .removeStale isOK feer => removeStale mp isOK feer
   | .verify t feer => (verify mp t feer).1
+  | .setResendThreshold h => setResendThreshold mp h
 
 def run (capacity : Nat) (ops : List Op) : Pool := ops.foldl applyOp (new capacity)
 
@@ -25,6 +27,7 @@ def OpOk (U : Tx → Prop) : Op → Prop
   | .verify t f => U t ∧ FeerOk f
   | .removeStale _ f => FeerOk f
   | .remove _ => True
+  | .setResendThreshold _ => True
 
 def OpsIn (U : Tx → Prop) (ops : List Op) : Prop := ∀ op ∈ ops, OpOk U op
 
@@ -51,6 +54,7 @@ theorem inv_applyOp {U : Tx → Prop} (hw : WF U) {mp : Pool} (hi : Inv U mp) (o
   | remove h => exact inv_remove hw hi h
   | removeStale isOK feer => exact (inv_removeStale hw hi isOK feer hop).1
   | verify t feer => exact (verify_spec hw hi hop.1 feer hop.2).2
+  | setResendThreshold h => exact ⟨hi.noPanic, hi.cap, hi.list, hi.vmap, hi.conf, hi.orc, hi.fees⟩
 
 theorem inv_foldl {U : Tx → Prop} (hw : WF U) : ∀ (ops : List Op) (mp : Pool), Inv U mp → OpsIn U ops →
     Inv U (ops.foldl applyOp mp) := by
@@ -83,6 +87,7 @@ theorem capacity_applyOp {U : Tx → Prop} (hw : WF U) {mp : Pool} (hi : Inv U m
   | remove h => exact (inv_removeInternal hw hi h).2.2.1
   | removeStale isOK feer => exact (inv_removeStale hw hi isOK feer hop).2.2
   | verify t feer => exact (verify_spec hw hi hop.1 feer hop.2).1.2.2.2.2.1
+  | setResendThreshold h => rfl
 
 theorem capacity_foldl {U : Tx → Prop} (hw : WF U) : ∀ (ops : List Op) (mp : Pool), Inv U mp → OpsIn U ops →
     (ops.foldl applyOp mp).capacity = mp.capacity := by
@@ -105,6 +110,7 @@ def UsesFeer (F : Feer) : Op → Prop
   | .verify _ f => f = F
   | .removeStale _ f => f = F
   | .remove _ => True
+  | .setResendThreshold _ => True
 
 theorem balLe_applyOp (F : Feer) (mp : Pool) (op : Op) (hu : UsesFeer F op) (h : BalLe F mp.fees) :
     BalLe F (applyOp mp op).fees := by
@@ -113,6 +119,7 @@ theorem balLe_applyOp (F : Feer) (mp : Pool) (op : Op) (hu : UsesFeer F op) (h :
   | remove hh => exact balLe_removeInternal mp hh h
   | removeStale isOK f => have : f = F := hu; subst this; exact balLe_removeStale _ mp isOK
   | verify t f => have : f = F := hu; subst this; exact balLe_verify mp t h
+  | setResendThreshold hh => exact h
 
 theorem balLe_foldl (F : Feer) : ∀ (ops : List Op) (mp : Pool), (∀ op ∈ ops, UsesFeer F op) → BalLe F mp.fees →
     BalLe F (ops.foldl applyOp mp).fees := by
